@@ -28,14 +28,15 @@ def rate_of(i, s):
     return round(0.01 * (i + 1) + 0.003 * s, 6)
 
 
-def input_spec(i):
+def input_spec(i, grown=False):
     return {'comments': '', 'ranges': {
         'label': f'input{i}',
         'code': {'name': 'Toric2DCode', 'parameters': [{'L_x': 2, 'L_y': 2}]},
         'error_model': {'name': 'PauliErrorModel',
                         'parameters': [{'r_x': 1 / 3, 'r_y': 1 / 3, 'r_z': 1 / 3}]},
         'decoder': {'name': 'MatchingDecoder'},
-        'error_rate': [rate_of(i, 0), rate_of(i, 1)]}}
+        # growing an input = appending a further error rate to it
+        'error_rate': [rate_of(i, 0), rate_of(i, 1)] + ([rate_of(i, 2)] if grown else [])}}
 
 
 class _StopEarly:
@@ -55,16 +56,18 @@ class _StopEarly:
         return self._real.Process(target=target, args=args, kwargs=kwargs or {}, **kw)
 
 
-def read_files(results_dir, ntasks, ninputs):
+def read_files(results_dir, ntasks, ninputs, pos=None):
+    pos = pos or {k: k for k in range(16)}      # number in the file name -> input index of run-parallel
     """Independent reader: trials per task file, totals per input."""
     digits = len(str(ntasks))
-    files = []
-    per_input = [[0, 0] for _ in range(ninputs)]
+    files, filesb = [], []
+    per_input = [[0, 0, 0] for _ in range(ninputs)]
     for t in range(ntasks):
         base = os.path.join(results_dir, f'results_{str(t + 1).zfill(digits)}.json')
         path = base + '.gz' if os.path.exists(base + '.gz') else base
         if not os.path.exists(path):
             files.append(-1)
+            filesb.append(-1)
             continue
         try:
             if path.endswith('.gz'):
@@ -73,47 +76,54 @@ def read_files(results_dir, ntasks, ninputs):
             else:
                 with open(path) as f:
                     data = json.load(f)
-            counts = []
+            counts, added = [], []
             for rec in data:
                 r = rec['results']
                 n = int(r['n_runs'])
                 lens = {len(r['effective_error']), len(r['success']), len(r['codespace'])}
+                k_, s = RATE_LOOKUP[round(rec['inputs']['error_rate'], 6)]
+                i = pos[k_]
                 if lens != {n}:
-                    counts.append(-2)
-                    continue
-                counts.append(n)
-                i, s = RATE_LOOKUP[round(rec['inputs']['error_rate'], 6)]
-                per_input[i][s] += n
+                    n = -2
+                else:
+                    per_input[i][s] += n
+                (added if s == 2 else counts).append(n)
+            # the simulations an input had from the start advance in lock step
             files.append(counts[0] if len(counts) == 2 and len(set(counts)) == 1 and counts[0] >= 0 else -2)
+            filesb.append(-1 if not added else (added[0] if len(added) == 1 and added[0] >= 0 else -2))
         except Exception:
             files.append(-2)
+            filesb.append(-2)
     # other files in the directory (a task writing under an unexpected name)
     extra = [f for f in os.listdir(results_dir)
              if not f.startswith('results_')]
     totals = [p[0] if p[0] == p[1] else -2 for p in per_input]
-    return files, totals, extra
+    totalsb = [p[2] for p in per_input]
+    return files, totals, extra, filesb, totalsb
 
 
-RATE_LOOKUP = {rate_of(i, s): (i, s) for i in range(16) for s in range(2)}
+RATE_LOOKUP = {rate_of(i, s): (i, s) for i in range(16) for s in range(3)}
 
 
-def read_analysis(results_dir, ninputs):
+def read_analysis(results_dir, ninputs, pos=None):
+    pos = pos or {k: k for k in range(16)}
     from panqec.analysis import Analysis
-    per_input = [[0, 0] for _ in range(ninputs)]
+    per_input = [[0, 0, 0] for _ in range(ninputs)]
     if not any(f.endswith(('.json', '.gz')) for f in os.listdir(results_dir)):
-        return [0] * ninputs
+        return [0] * ninputs, [0] * ninputs
     try:
         with contextlib.redirect_stdout(io.StringIO()):
             an = Analysis(results_dir, verbose=False)
         df = an.get_results()
         for _, row in df.iterrows():
             key = round(float(row['error_rate']), 6)
-            if key in RATE_LOOKUP and RATE_LOOKUP[key][0] < ninputs:
-                i, s = RATE_LOOKUP[key]
+            if key in RATE_LOOKUP and RATE_LOOKUP[key][0] in pos and pos[RATE_LOOKUP[key][0]] < ninputs:
+                k_, s = RATE_LOOKUP[key]
+                i = pos[k_]
                 per_input[i][s] += int(row['n_trials'])
     except Exception as ex:      # reported as a note, not as a C14 violation
-        return [-3] * ninputs
-    return [p[0] if p[0] == p[1] else -2 for p in per_input]
+        return [-3] * ninputs, [-3] * ninputs
+    return [p[0] if p[0] == p[1] else -2 for p in per_input], [p[2] for p in per_input]
 
 
 def launch_through_script(cli, d, cluster, N, C, trials, job, delete):
@@ -154,6 +164,12 @@ def replay(args):
         # the names generate-input gives its files contain dots (bias ratio 0.5)
         with open(os.path.join(ind, f'input_{i:02d}_bias_0.5.json'), 'w') as f:
             json.dump(input_spec(i), f)
+    # run-parallel numbers the inputs in the order glob() lists them (directory
+    # order, not sorted): input i of the model is the i-th file of that listing
+    # ASSUMPTION recorded in DESIGN.md: every node sees the same listing order
+    from glob import glob
+    name_no = [int(os.path.basename(p_).split('_')[1]) for p_ in glob(f'{ind}/*.json')]
+    pos = {k_: i_ for i_, k_ in enumerate(name_no)}
     res = os.path.join(d, 'results')
     ntasks = N * C
     digits = len(str(ntasks))
@@ -166,6 +182,13 @@ def replay(args):
                 ev['trials'] = st['trials']
                 steps.append(ev)
                 continue
+            if st['a'] == 'grow':
+                ev['input'] = st['input']
+                k_ = name_no[st['input']]
+                with open(os.path.join(ind, f"input_{k_:02d}_bias_0.5.json"), 'w') as f:
+                    json.dump(input_spec(k_, grown=True), f)
+                steps.append(ev)
+                continue
             ev.update(job=st['job'], trials=st['trials'], delete=bool(st.get('delete', False)),
                       via=st.get('via', 'direct'))
             if st['a'] == 'partial':
@@ -174,7 +197,8 @@ def replay(args):
                     real_mp, f"results_{str(st['task'] + 1).zfill(digits)}", st['stop'])
             raised = ''
             os.makedirs(res, exist_ok=True)
-            before = read_files(res, ntasks, I)[0]
+            bf = read_files(res, ntasks, I, pos)
+            before, beforeb = bf[0], bf[3]
             try:
                 with contextlib.redirect_stdout(io.StringIO()):
                     if ev['via'] == 'direct' or st['a'] == 'partial':
@@ -188,9 +212,11 @@ def replay(args):
             finally:
                 cli.multiprocessing = real_mp
             os.makedirs(res, exist_ok=True)
-            files, totals, extra = read_files(res, ntasks, I)
+            files, totals, extra, filesb, totalsb = read_files(res, ntasks, I, pos)
+            an_a, an_b = read_analysis(res, I, pos)
             ev['obs'] = {'raised': raised, 'files': files, 'totals': totals, 'before': before,
-                         'analysis': read_analysis(res, I), 'extra_files': extra}
+                         'filesb': filesb, 'totalsb': totalsb, 'beforeb': beforeb,
+                         'analysis': an_a, 'analysisb': an_b, 'extra_files': extra}
             steps.append(ev)
         return {'cfg': cfg, 'T0': beh['T0'], 'steps': steps}
     finally:
